@@ -220,8 +220,6 @@ theorem clause1_sim (values : Bytes) (e : Env) (s : RebState) (t : UInt8) (fuel 
     have a7 : (s.off : Int) < s.tape.size := by omega
     have a8 : (0 : Int) ≤ s.off + 1 := by omega
     simp [h1, h2, h3, h4, h5, h6, errRet, a1, a2, a3, a4, a5, a6, a7, a8, hw1, hlt, Rep]
-    trace_state
-    sorry
 
 /-- `case TagNop` -/
 theorem clause0_sim (values : Bytes) (e : Env) (s : RebState) (t : UInt8) (fuel : Nat)
@@ -347,8 +345,7 @@ theorem clause7_sim (values : Bytes) (e : Env) (s : RebState) (t : UInt8) (fuel 
   have a7 : (s.off : Int) < s.tape.size := by omega
   have hr : s.tape[s.off]? = some s.tape[s.off] := by simp [hlt]
   simp only [rd, hr, Res.bind_ok]
-  generalize s.tape[s.off] = cur at hr
-  by_cases hm : (cur &&& wJSONTAGMASK != t.toUInt64 <<< 56) = true
+  by_cases hm : (s.tape[s.off] &&& wJSONTAGMASK != t.toUInt64 <<< 56) = true
   · rw [if_pos hm]
     refine ⟨⟨e, s.tape⟩, true, ?_⟩
     simp only [wJSONTAGMASK] at hm
@@ -356,5 +353,62 @@ theorem clause7_sim (values : Bytes) (e : Env) (s : RebState) (t : UInt8) (fuel 
   · rw [if_neg hm]
     simp only [wJSONTAGMASK, Bool.not_eq_true] at hm
     simp [h1, h2, h3, h4, h6, a7, hlt, hr, hm, errRet, StepSim, Rep]
+
+theorem u64_ofNat_lt (n : Nat) (x : UInt64) (hn : n < 2^64) : UInt64.ofNat n < x ↔ n < x.toNat := by
+  rw [UInt64.lt_iff_toNat_lt, UInt64.toNat_ofNat']
+  have : n % 2^64 = n := Nat.mod_eq_of_lt hn
+  rw [this]
+
+/-- `case TagRoot` -/
+theorem clause6_sim (values : Bytes) (e : Env) (s : RebState) (t : UInt8) (fuel : Nat)
+    (hR : Rep values e s) (hT : TagVars t e) (hlt : s.off < s.tape.size) (hsz : s.tape.size < 2^64) :
+    StepSim values (fun _ => True) (exec goFuns fuel (caseBody 6) ⟨e, s.tape⟩)
+      (if values.size - s.vpos < 8 then .error .generic else
+        if (rdLE64 values s.vpos + UInt64.ofNat s.off).toNat > s.tape.size then .error .generic else do
+        let tp ← wr s.tape s.off ((t.toUInt64 <<< 56) ||| (rdLE64 values s.vpos + UInt64.ofNat s.off))
+        .ok { s with tape := tp, off := s.off + 1, vpos := s.vpos + 8 }) := by
+  obtain ⟨h1, h2, h3, h4⟩ := hR
+  obtain ⟨h5, h6⟩ := hT
+  have hbody : caseBody 6 = [
+      .ite (.bin .lt (.lenB (.v "values")) (.int 8)) errRet [],
+      .assign "val" (.le64 (.sliceB (.v "values") (.int 0) (.int 8))),
+      .assign "values" (.sliceB (.v "values") (.int 8) (.lenB (.v "values"))),
+      .assign "val" (.bin .add (.v "val") (.conv .u64 (.v "off"))),
+      .ite (.bin .gt (.v "val") (.conv .u64 (.lenTape "dst"))) errRet [],
+      .tapeSet "dst" (.v "off") (.bin .or (.v "tagDst") (.v "val")),
+      .assign "off" (.bin .add (.v "off") (.int 1))] := rfl
+  rw [hbody]
+  by_cases hl : values.size - s.vpos < 8
+  · rw [if_pos hl]
+    have hl' : ((values.size - s.vpos : Nat) : Int) < 8 := by omega
+    refine ⟨⟨e, s.tape⟩, true, ?_⟩
+    simp [h3, errRet, hl, hl']
+  · rw [if_neg hl]
+    have hvs : (values.extract s.vpos values.size).size = values.size - s.vpos := size_suffix _ _
+    have hlo := leU64_suffix_lo values s.vpos (by omega)
+    have hrest := suffix_suffix values s.vpos 8 (by omega)
+    rw [← hvs] at hrest
+    simp only [Rep, StepSim]
+    rw [← hlo]
+    generalize values.extract s.vpos values.size = v at *
+    have a1 : (8 : Int) ≤ v.size := by omega
+    have a3 : min 8 v.size = 8 := by omega
+    have a5 : ¬ ((v.size : Int) < 8) := by omega
+    have a7 : (s.off : Int) < s.tape.size := by omega
+    generalize hval : leU64 (v.extract 0 8) + UInt64.ofNat s.off = val
+    have hcmp := u64_ofNat_lt s.tape.size val hsz
+    by_cases hv : val.toNat > s.tape.size
+    · rw [if_pos hv]
+      have hv' : UInt64.ofNat s.tape.size < val := hcmp.mpr hv
+      refine ⟨_, true, ?_⟩
+      simp [h1, h2, h3, h4, h5, h6, errRet, a1, a3, a5, a7, hlt, ofInt_nat, hval, hv']
+      trace_state
+      sorry
+    · rw [if_neg hv]
+      have hv' : ¬ UInt64.ofNat s.tape.size < val := fun h => hv (hcmp.mp h)
+      simp only [wr, hlt, dite_true, Res.bind_ok, Array.size_set, StepSim, Rep]
+      simp [h1, h2, h3, h4, h5, h6, errRet, a1, a3, a5, a7, hlt, ofInt_nat, hval, hv']
+      trace_state
+      sorry
 
 end SJ.GoRebuild
